@@ -24,6 +24,7 @@ type outFile struct {
 	WallMS  int64            `json:"wall_ms"`
 	Workers int              `json:"workers"`
 	Tasks   int              `json:"tasks"`
+	Expired bool             `json:"expired"`
 }
 
 // message from a worker: either donated sub-tasks or the task's result
@@ -40,6 +41,7 @@ func main() {
 	workers := flag.Int("workers", 1, "parallel worker processes")
 	root := flag.String("root", "github.com/flamego/flamego", "root package")
 	serve := flag.Bool("serve", false, "worker mode: one task per stdin line")
+	deadline := flag.Int("deadline", 0, "seconds after which unfinished work is abandoned and reported as inconclusive")
 	flag.Parse()
 	if *serve {
 		serveLoop(*repo, *overlayPath, *root)
@@ -90,6 +92,31 @@ func main() {
 	tasks := 0
 	var firstErr error
 	var wg sync.WaitGroup
+	expired := false
+	var cmds []*exec.Cmd
+	if *deadline > 0 {
+		go func() {
+			time.Sleep(time.Duration(*deadline) * time.Second)
+			mu.Lock()
+			expired = true
+			abandoned := len(queue)
+			queue = nil
+			for _, c := range cmds {
+				if c != nil && c.Process != nil {
+					c.Process.Kill()
+				}
+			}
+			for _, id := range order {
+				if acc[id].ID == "" {
+					acc[id].ID = id
+					acc[id].ByStatus = map[string]int{}
+				}
+			}
+			_ = abandoned
+			cond.Broadcast()
+			mu.Unlock()
+		}()
+	}
 	for w := 0; w < n; w++ {
 		wg.Add(1)
 		go func(w int) {
@@ -105,6 +132,9 @@ func main() {
 				if err := cmd.Start(); err != nil {
 					return err
 				}
+				mu.Lock()
+				cmds = append(cmds, cmd)
+				mu.Unlock()
 				rd = bufio.NewReaderSize(outp, 1<<20)
 				enc = json.NewEncoder(in)
 				return nil
@@ -136,6 +166,19 @@ func main() {
 				}
 				fail := func(err error) {
 					mu.Lock()
+					if expired {
+						// the deadline killed this worker: its task is abandoned, not an error
+						a := acc[task.ID]
+						if a.ID == "" {
+							a.ID = task.ID
+							a.ByStatus = map[string]int{}
+						}
+						a.Inconclusive = append(a.Inconclusive, "deadline reached: a task of this job was abandoned")
+						active--
+						cond.Broadcast()
+						mu.Unlock()
+						return
+					}
 					if firstErr == nil {
 						firstErr = fmt.Errorf("worker %d on job %s: %v", w, task.ID, err)
 					}
@@ -197,6 +240,7 @@ func main() {
 	}
 	all.Workers = n
 	all.Tasks = tasks
+	all.Expired = expired
 	all.WallMS = time.Since(start).Milliseconds()
 	writeOut(*outPath, all)
 }
